@@ -13,6 +13,7 @@ import os
 import re
 import socket
 import ssl
+import warnings
 import tempfile
 import shutil
 import threading
@@ -47,7 +48,7 @@ def setup(ctx):
     ctx.require("monitor", "controls_ok", 6)
     ctx.require("monitor", "new_version_ok", 8)
     ctx.require("monitor", "old_version_attempts_client", 3)
-    ctx.require("monitor", "faulty_material_starts", 27)
+    ctx.require("monitor", "faulty_material_starts", 30)
     ctx.require("monitor", "bind_fault_starts", 16)
     ctx.require("monitor", "wired_through_serve_command", 5)
     ctx.require("monitor", "plaintext_probes", 40)
@@ -352,6 +353,9 @@ def run_faulty_material(ctx, base):
         ("der-cert", put("cert.der", a.der), a.keyfile),
         ("key-missing", a.certfile, os.path.join(d, "no-such-key.pem")),
     ]
+    # material that is in order but that OpenSSL refuses at its default security level (a 1024-bit RSA key)
+    weak = certs.identity("c20-legacy-rsa1024", "rsa1024")
+    faults.append(("legacy-1024-bit-rsa-key", weak.certfile, weak.keyfile))
     for fname, certfile, keyfile in faults:
         for wants in ("no-client-certs", "require_client_cert", "cert-auth-rule"):
             kw = dict(log_level="CRITICAL", enable_rate_limiting=False)
@@ -383,6 +387,26 @@ def run_faulty_material(ctx, base):
                     ctx.violation(f"plaintext-answered:context=start_server:after-material-fault", f"with {fname} the server came up and answered a clear-text request", wit)
                 else:
                     ctx.count("outcome", f"faulty-material:{fname}:came-up-with-tls")
+                # ... and what came up keeps the version floor: a peer that offers nothing above TLS 1.1 gets no session
+                for vname, vmax in (("TLSv1.1", ssl.TLSVersion.TLSv1_1), ("TLSv1", ssl.TLSVersion.TLSv1)):
+                    old_ctx = ssl.SSLContext(ssl.PROTOCOL_TLS_CLIENT)
+                    old_ctx.check_hostname = False
+                    old_ctx.verify_mode = ssl.CERT_NONE
+                    with warnings.catch_warnings():
+                        warnings.simplefilter("ignore")
+                        old_ctx.minimum_version = ssl.TLSVersion.TLSv1
+                        old_ctx.maximum_version = vmax
+                    old_ctx.set_ciphers("ALL:@SECLEVEL=0")
+                    loop2 = new_loop()
+                    try:
+                        sw2 = tlsbench.Sandwich(loop2, None, captured=cap, client_ctx=old_ctx)
+                        done = sw2.handshake()
+                        ctx.count("monitor", "old_version_attempts_server")
+                        if done and sw2.client.version() in ("TLSv1", "TLSv1.1", "SSLv3"):
+                            ctx.violation(f"served:start_server:after-material-fault:{sw2.client.version()}", f"with {fname} the server came up and completed a {sw2.client.version()} handshake",
+                                          dict(wit, negotiated=sw2.client.version()))
+                    finally:
+                        close_loop(loop2)
                 ctx.case(("faulty-material", fname, wants, "came-up", bool(out)), True, sample=wit)
             finally:
                 close_loop(loop)
